@@ -440,3 +440,66 @@ func VerifC12_SSAFault() {
 	s.pc.processNextWorkItem()
 	rt.Assert(len(w.Srv.Writes()) == 0, "ssa/after-fault/not-quiescent")
 }
+
+// VerifC12_FinalizeFaults: the fault scenario for a parent that is being
+// finalized and whose finalize hook answers finalized:true (its children are
+// gone already, as the hook contract demands): the sync removes the finalizer
+// with a read-modify-write of its own and writes the status - every one of
+// those requests (reads included) can fail. Whatever fails: no panic, the work
+// item is requeued or forgotten, a failure that is not a benign race is
+// requeued with back-off, and once faults stop the finalizer goes away.
+func VerifC12_FinalizeFaults() {
+	hook := verifConstHook(nil, map[string]interface{}{"phase": "done"}, true)
+	s := verifC12Setup(hook)
+	w := s.w
+	s.pc.finalizeHook = hook
+	s.pc.finalizer.Enabled = true
+	w.Srv.Remove("configmaps", "ns", "a")
+	w.Srv.Remove("configmaps", "ns", "b")
+	p := w.Srv.Peek("things", "ns", "p").DeepCopy()
+	verifSetFinalizers(p, verifFinalizerName)
+	env.MarkDeleting(p)
+	p.SetResourceVersion("8")
+	w.Srv.Put("things", p)
+	s.pc.SnapshotFromStore()
+
+	// fault-free: get p, update p (finalizer removal), get p, update-status p
+	const nreq = 4
+	pos := rt.Choice("fault-at", nreq)
+	kind := 1 + rt.Choice("fault-kind", env.NumFaultKinds-2) // every kind except none and crash
+	w.Srv.ArmFault(pos, kind, "", true)
+
+	s.pc.Queue.Items = append(s.pc.Queue.Items, "ns/p")
+	more := s.pc.processNextWorkItem()
+	rt.Assert(more, "finalize-faults/worker-stops-after-a-sync")
+	var hit *env.Req
+	for i := range w.Srv.Log {
+		if w.Srv.Log[i].Seq == pos {
+			hit = &w.Srv.Log[i]
+		}
+	}
+	if hit == nil {
+		// (once the finalizer is gone the simulated server lets the parent go: fewer requests)
+		rt.Cover("finalize-faults/position-not-reached")
+		return
+	}
+	rt.Cover("finalize-faults/fault-hit")
+	requeued := s.pc.Queue.Count("add-rate-limited")
+	forgot := s.pc.Queue.Count("forget")
+	rt.Assert(requeued+forgot == 1, "finalize-faults/work-item-neither-requeued-nor-forgotten")
+	if kind != env.FaultNotFound && kind != env.FaultConflict && kind != env.FaultGone {
+		// (object gone and optimistic-lock conflicts are the documented benign races)
+		rt.Assert(requeued == 1, "finalize-faults/"+hit.Verb+"-"+hit.Resource+"/failure-not-requeued-with-backoff")
+	}
+	// once faults stop the finalization completes
+	w.Srv.DisarmFault()
+	for i := 0; i < 3; i++ {
+		s.pc.Resnapshot()
+		s.pc.Queue.Items = append(s.pc.Queue.Items, "ns/p")
+		s.pc.processNextWorkItem()
+	}
+	cur := w.Srv.Peek("things", "ns", "p")
+	if cur != nil {
+		rt.Assert(!verifHasFinalizer(cur, verifFinalizerName), "finalize-faults/finalizer-still-there-after-faults-stopped")
+	}
+}
